@@ -25,6 +25,8 @@ from .C02 import _rate_element
 
 def run(model, rep, tier):
     rep.explanation = __doc__.strip()
+    from ._common import caches_for
+    caches_for(model, rep, 'C10')
     rep.not_decided = 'that G solves the lattice diffusion equation, its far-field pole and its scaling (numerical)'
     rep.rule('exchange-symmetric', 'symmetric rate element invariant under swapping the two Wyckoff sets')
     rep.rule('taylor-selection', 'Taylor class chosen by the dimension idiom everywhere; HDF5 tag built alike in writer and reader')
